@@ -99,6 +99,45 @@ class Desugar(ast.NodeTransformer):
             return ast.copy_location(new, node)
         return node
 
+    # X[k] (load) and `a in X` / `a not in X`: the same operations, except that a NATIVE tuple/list holding the marker of an
+    # abstract segment (what `*args` makes of an abstract sequence) refuses positional access and membership -- natively the
+    # marker would count as ONE element, so `args[:1]`, `args[0]` or `x in args` would silently mean something else.
+    def _slice_expr(self, sl):
+        if isinstance(sl, ast.Slice):
+            none = lambda: ast.Constant(value=None)
+            return ast.Call(func=ast.Name(id="slice", ctx=ast.Load()),
+                            args=[sl.lower or none(), sl.upper or none(), sl.step or none()], keywords=[])
+        if isinstance(sl, ast.Tuple):
+            return ast.Tuple(elts=[self._slice_expr(e) for e in sl.elts], ctx=ast.Load())
+        return sl
+
+    def visit_Subscript(self, node):
+        self.generic_visit(node)
+        if not isinstance(node.ctx, ast.Load):
+            return node
+        if any(isinstance(n, ast.Starred) for n in ast.walk(node.slice)):
+            return node
+        self.subscripts = getattr(self, "subscripts", 0) + 1
+        new = ast.Call(func=ast.Name(id="__pyvc_getitem__", ctx=ast.Load()), args=[node.value, self._slice_expr(node.slice)], keywords=[])
+        new = ast.copy_location(new, node)
+        for n in ast.walk(new):
+            if not hasattr(n, "lineno"):
+                ast.copy_location(n, node)
+        return new
+
+    def visit_Compare(self, node):
+        self.generic_visit(node)
+        if len(node.ops) == 1 and isinstance(node.ops[0], (ast.In, ast.NotIn)):
+            self.memberships = getattr(self, "memberships", 0) + 1
+            call = ast.Call(func=ast.Name(id="__pyvc_in__", ctx=ast.Load()), args=[node.left, node.comparators[0]], keywords=[])
+            new = call if isinstance(node.ops[0], ast.In) else ast.UnaryOp(op=ast.Not(), operand=call)
+            new = ast.copy_location(new, node)
+            for n in ast.walk(new):
+                if not hasattr(n, "lineno"):
+                    ast.copy_location(n, node)
+            return new
+        return node
+
     def visit_ListComp(self, node):
         self.generic_visit(node)
         if not self._ok(node):
@@ -424,4 +463,5 @@ def desugar(src, path):
     ld.run(tree)
     ast.fix_missing_locations(tree)
     return tree, {"comprehensions": d.count, "comprehensions_untouched": d.skipped, "loops": ld.count,
-                  "loops_guarded": ld.guarded, "str_calls": getattr(d, "str_calls", 0)}
+                  "loops_guarded": ld.guarded, "str_calls": getattr(d, "str_calls", 0),
+                  "subscripts": getattr(d, "subscripts", 0), "memberships": getattr(d, "memberships", 0)}
